@@ -8,6 +8,9 @@ below never calls pandas or tradingenv). A share of the cases also goes through 
 and `TrackRecord.tearsheet`.
 Part `scale` is metamorphic: every metric of c * levels equals the metric of levels.
 (the scaled objects are `obj * c` of the already measured objects).
+Part `window` calls `tearsheet(risk_free=..., benchmark=...)` and `TrackRecord.tearsheet()` (risk_free / benchmark
+attached as TradingEnv.backtest does) with series that start / end before or after the strategy and grow differently
+outside the common stretch; every row must be the metric of the common rows.
 Part `derived` measures an object, obtains a second one from it with pandas operations (`obj * c`, `obj.mul(c)`,
 `obj / c`, `obj * series`, `obj.copy()` + `iloc` assignment, `obj.iloc[a:b]`) or edits the same object in place,
 and compares the metrics of the result with the reference of the values it holds; then a benchmark / risk-free
@@ -40,7 +43,9 @@ RULE = ("definitions/scale/reject: Hypothesis draws n in 2..400 observations; in
         "{default 0.025, 0.05, 0.02, dyadic 1/2..1/32, 0.75, generated}. scale: c = 2^k (|k| <= 20) or 10^u, u in "
         "[-6, 6], independent constants for risk-free and benchmark. reject: one defect (NaN, value <= 0, duplicated "
         "timestamp, two rows swapped, NaT, RangeIndex, string index, integer index) in the series itself, its "
-        "risk-free or its benchmark. derived: same inputs (4 of 7 intraday), one operation in {obj*c, obj.mul(c), obj/c, "
+        "risk-free or its benchmark. window: n in 4..160, strategy / risk-free / benchmark each cover the time grid minus "
+        "0..n/3 rows at either end (common stretch >= 2 rows and >= 24 h, else all on the same index), risk-free and "
+        "benchmark moves outside the strategy's stretch replaced / multiplied by a different growth. derived: same inputs (4 of 7 intraday), one operation in {obj*c, obj.mul(c), obj/c, "
         "obj*series of factors 0.8..1.2, copy + 1-4 rows reassigned, same object with 1-4 rows reassigned in place, "
         "obj.iloc[a:b]} applied after the original was measured, optionally followed by a benchmark = measured series "
         "* wiggle, a benchmark edited in place, a risk-free = measured risk-free * wiggle. non-trivial = at least 3 daily levels and the returns of the first column are "
@@ -554,8 +559,13 @@ def check_track_record(res, times, levels, refs, risk_free=None, benchmark=None,
     track = TrackRecord()
     if risk_free is not None:
         track.risk_free = risk_free
+    elif len(times) % 2 == 0:
+        track.risk_free = None          # what TradingEnv.backtest stores when the caller gives no risk-free series
+        res.tag("track-record:risk_free=None")
     if benchmark is not None:
         track.benchmark = benchmark
+    elif len(times) % 3 == 0:
+        track.benchmark = None          # idem for the benchmark
     asset = ETF("C16")
     for t, v in zip(times, levels):
         reb = Rebalancing(contracts=[asset], allocation=[0.5], time=t)
@@ -1190,7 +1200,7 @@ def probe_tracking_error_two_levels():
 FINDING_PROBES = {"D11": probe_tracking_error_two_levels}
 
 PARTS = [
-    Part("definitions", strategy=lambda tier: definition_cases(tier), run=run_definitions, quick=1300, thorough=30000),
+    Part("definitions", strategy=lambda tier: definition_cases(tier), run=run_definitions, quick=1200, thorough=30000),
     Part("scale", strategy=lambda tier: scale_cases(tier), run=run_scale, quick=600, thorough=16000),
     Part("window", strategy=lambda tier: window_cases(tier), run=run_window, quick=300, thorough=8000),
     Part("derived", strategy=lambda tier: derived_cases(tier), run=run_derived, quick=400, thorough=10000),
@@ -1227,6 +1237,11 @@ PARTS = [
 #   definitions / reject; C16_C (daily levels memoised in .attrs, inherited by derived objects and kept after
 #   in-place edits) was MISSED by the first version (every object was built from fresh arrays and measured once),
 #   now caught by derived (every shape-preserving operation) and by scale (level() of obj * c).
+#
+#   C16_E (martin_risk divided by raw row count) caught by definitions; C16_F (tearsheet no longer trims the
+#   risk-free series to the common index) was MISSED while risk-free and benchmark always shared the strategy's
+#   index, now caught by window (NDFrame.tearsheet and TrackRecord.tearsheet rows "Risk-free CAGR", "CAGR over cash",
+#   Sharpe ...).
 #
 # Candidate findings on the unchanged tree (see KNOWN_CANDIDATES / FINDING_PROBES):
 #   * tracking_error / excess_returns / information_ratio / tearsheet(benchmark=...) raise AttributeError when
